@@ -12,7 +12,10 @@ SHARD = 40
 RULE = ("conductor op lists (Call / Dirty from outside any running body, on the main or a second thread; Go = hand the created "
         "tasks to the scheduler; Flush e = let body execution e pass its gate) of length 2..16 (thorough: ..30) over seven real "
         "@deduplicate() callables (two functions with the same signature, one with keyword-only and defaulted parameters, one with "
-        "**kw, a method on two instances, a static method, one with *rest) plus body scripts (gates on per-execution harness batches, "
+        "**kw, a method on two instances, a static method, one with *rest), each existing in three generations = distinct function "
+        "objects / classes with the same __module__ and __qualname__ (the def statements executed twice in one scope and once more by a "
+        "second invocation of the enclosing factory; ~45% of the cases use more than one generation, there ~30% of the hot-key calls "
+        "go to another generation of the hot callable) plus body scripts (gates on per-execution harness batches, "
         ".asynq()/dirty() issued from inside the running body, return or raise); ~60% of calls hit one hot key in random "
         "positional/keyword/default spellings; 12% of call spellings are ill-formed (missing, surplus, duplicated, unexpected "
         "arguments); distinct = different (scripts, ops); non-trivial = two well-formed calls that bind the same arguments of the "
@@ -71,12 +74,18 @@ def _args_for(rng, fn, hot):
     return vals[:len(ps)] + [1] * (len(ps) - len(vals))
 
 
-def _call_spec(rng, hot, malformed):
-    """-> (fn, inst, pos, kw)"""
+NGEN = 3
+
+
+def _call_spec(rng, hot, malformed, gens=None):
+    """-> (fn, gen, inst, pos, kw); gens = None (single-generation case) or the generations in use"""
+    gen = 0
     if hot and rng.random() < 0.6:
         fn, inst, vals, extra, rest, d6 = hot
         if rng.random() < 0.12:
             inst = 1 - inst
+        if gens and rng.random() < 0.3:          # the same-named function object of another generation
+            gen = rng.choice(gens[1:])
         if fn == 6:                              # surplus positional vs keyword-only spellings of f6
             rest = rng.choice([[], [], [2], [0]])
             d6 = rng.choice([0, 0, 2])
@@ -87,6 +96,8 @@ def _call_spec(rng, hot, malformed):
         extra = [(n, rng.choice([1, 2])) for n in (5, 6, 7) if rng.random() < 0.35] if fn == 3 else None
         rest = [rng.choice([0, 1, 2]) for _ in range(rng.choice([0, 0, 1, 2]))] if fn == 6 else None
         d6 = rng.choice([0, 0, 1, 2]) if fn == 6 else None
+        if gens:
+            gen = rng.choice(gens)
     pos, kw = _spell(rng, fn, vals, extra, rest, d6)
     if malformed:
         r = rng.random()
@@ -107,11 +118,14 @@ def _call_spec(rng, hot, malformed):
         if k[""][0] not in seen:
             seen.add(k[""][0])
             uniq.append(k)
-    return fn, inst, pos, uniq
+    return fn, gen, inst, pos, uniq
 
 
 def gen_case(rng, tier):
     big = tier != "quick"
+    gens = None
+    if rng.random() < 0.45:                      # generations in use; gens[0] = 0 is the hot callable's
+        gens = [0] + rng.choice([[1], [2], [1, 2]])
     hot_fn = rng.choice([0, 0, 0, 2, 3, 4, 4, 5, 6])
     hot = (hot_fn, rng.randrange(2), _args_for(rng, hot_fn, None),
            ([(5, 1)] if hot_fn == 3 and rng.random() < 0.5 else None),
@@ -126,11 +140,11 @@ def gen_case(rng, tier):
             if r < 0.70:
                 steps.append("BGate")
             elif r < 0.90:
-                fn, inst, pos, kw = _call_spec(rng, hot, rng.random() < 0.08)
-                steps.append({"BCall": [fn, inst, pos, kw]})
+                fn, gen, inst, pos, kw = _call_spec(rng, hot, rng.random() < 0.08, gens)
+                steps.append({"BCall": [fn, gen, inst, pos, kw]})
             else:
-                fn, inst, pos, kw = _call_spec(rng, hot, False)
-                steps.append({"BDirty": [fn, inst, pos, kw]})
+                fn, gen, inst, pos, kw = _call_spec(rng, hot, False, gens)
+                steps.append({"BDirty": [fn, gen, inst, pos, kw]})
         fin = {"Ret": [rng.randrange(10, 60)]} if rng.random() < 0.8 else {"Raise": [rng.randrange(100, 160)]}
         scripts.append({"": [steps, fin]})
     n = rng.randrange(2, 17 if not big else 31)
@@ -139,21 +153,21 @@ def gen_case(rng, tier):
     for _ in range(n):
         r = rng.random()
         if r < 0.52 or not ops:
-            fn, inst, pos, kw = _call_spec(rng, hot, rng.random() < 0.12)
-            ops.append({"OCall": [1 if rng.random() < 0.12 else 0, fn, inst, pos, kw]})
+            fn, gen, inst, pos, kw = _call_spec(rng, hot, rng.random() < 0.12, gens)
+            ops.append({"OCall": [1 if rng.random() < 0.12 else 0, fn, gen, inst, pos, kw]})
             ncalls += 1
         elif r < 0.64:
-            fn, inst, pos, kw = _call_spec(rng, hot, rng.random() < 0.05)
-            ops.append({"ODirty": [1 if rng.random() < 0.08 else 0, fn, inst, pos, kw]})
+            fn, gen, inst, pos, kw = _call_spec(rng, hot, rng.random() < 0.05, gens)
+            ops.append({"ODirty": [1 if rng.random() < 0.08 else 0, fn, gen, inst, pos, kw]})
         elif r < 0.80:
             ops.append("OGo")
         else:
             ops.append({"OFlush": [{"n": rng.randrange(0, max(1, ncalls + 1))}]})
-    return {"args": [scripts, ops], "tree": [scripts, ops], "meta": {"hot_fn": hot_fn}}
+    return {"args": [scripts, ops], "tree": [scripts, ops], "meta": {"hot_fn": hot_fn, "gens": gens or [0]}}
 
 
 def gen_cases(rng, tier):
-    n = 600 if tier == "quick" else 9000
+    n = 700 if tier == "quick" else 9000
     return [gen_case(rng, tier) for _ in range(n)]
 
 
@@ -162,12 +176,12 @@ def _mk(scripts, ops):
     return {"args": [scripts, ops], "tree": [scripts, ops], "meta": {"corpus": True}}
 
 
-def _c(fn, pos, kw=(), inst=0, thread=0):
-    return {"OCall": [thread, fn, inst, [A(p) for p in pos], [{"": [k, A(v)]} for k, v in kw]]}
+def _c(fn, pos, kw=(), inst=0, thread=0, gen=0):
+    return {"OCall": [thread, fn, gen, inst, [A(p) for p in pos], [{"": [k, A(v)]} for k, v in kw]]}
 
 
-def _d(fn, pos, kw=(), inst=0, thread=0):
-    return {"ODirty": [thread, fn, inst, [A(p) for p in pos], [{"": [k, A(v)]} for k, v in kw]]}
+def _d(fn, pos, kw=(), inst=0, thread=0, gen=0):
+    return {"ODirty": [thread, fn, gen, inst, [A(p) for p in pos], [{"": [k, A(v)]} for k, v in kw]]}
 
 
 def _s(steps, fin=("Ret", 0)):
@@ -190,7 +204,7 @@ CORPUS = [
     _mk([_s([G], ("Ret", 10)), _s([G, G], ("Ret", 11)), _s([], ("Raise", 112))],
         [_c(0, [1]), _d(0, [1]), _c(0, [1], [(2, 0)]), "OGo", _f(0), _c(0, [1, 0]), "OGo"]),
     # call and dirty from inside the running body (escape hatch; dirty + self call)
-    _mk([_s([{"BCall": [0, 0, [A(1)], []]}, G, {"BDirty": [0, 0, [A(1)], []]}, {"BCall": [0, 0, [A(1)], []]}, G], ("Ret", 20))],
+    _mk([_s([{"BCall": [0, 0, 0, [A(1)], []]}, G, {"BDirty": [0, 0, 0, [A(1)], []]}, {"BCall": [0, 0, 0, [A(1)], []]}, G], ("Ret", 20))],
         [_c(0, [1]), "OGo", _c(0, [1]), _f(0), _c(0, [1]), "OGo"]),
     # **kw and *rest spellings
     _mk([_s([G])], [_c(3, [1], [(5, 2), (7, 1)]), _c(3, [], [(7, 1), (1, 1), (5, 2)]), _c(3, [1], [(5, 2)]), _c(6, [1, 2]), _c(6, [1, 2], [(4, 0)]),
@@ -200,6 +214,18 @@ CORPUS = [
     # ill-formed spellings
     _mk([], [_c(0, []), _c(0, [1, 2, 3]), _c(0, [1], [(1, 1)]), _c(0, [1], [(7, 3)]), _c(2, [1]), _d(0, []), _c(0, [1]), _c(0, [1, 0], [(2, 0)]), "OGo"]),
     _mk([], []),
+    # same-named function objects (generations 0 / 1 = defined twice in one scope, 2 = second factory invocation), equal
+    # arguments, same yield: one task per function object, each shared by its own spellings; static method and method likewise
+    _mk([_s([G], ("Ret", 10)), _s([G], ("Ret", 11)), _s([], ("Raise", 112)), _s([], ("Ret", 13)), _s([], ("Ret", 14)), _s([], ("Ret", 15)), _s([], ("Ret", 16))],
+        [_c(0, [1]), _c(0, [1], gen=1), _c(0, [], [(1, 1)]), _c(0, [1, 0], gen=1), _c(0, [1], gen=2), _c(5, [1]), _c(5, [1], gen=2),
+         _c(4, [1]), _c(4, [1], gen=1), "OGo", _c(0, [1], [(2, 0)], gen=1), _c(0, [1, 0]), "OGo"]),
+    # dirty() of one generation while the same-named function of the other has its task in flight; later step; the other's completion
+    _mk([_s([G], ("Ret", 10)), _s([G, G], ("Ret", 11)), _s([], ("Ret", 12))],
+        [_c(0, [1]), _c(0, [1], gen=1), "OGo", _d(0, [1], gen=1), _c(0, [1, 0]), _c(0, [1], gen=1), "OGo", _f(0), _c(0, [1], gen=1),
+         _f(1), _c(0, [], [(1, 1)], gen=1), "OGo"]),
+    # a call of the other generation from inside the running body (not the escape hatch: another function object), and its dirty()
+    _mk([_s([{"BCall": [2, 2, 0, [A(1), A(2)], []]}, G, {"BDirty": [2, 2, 0, [A(1), A(2)], []]}, G], ("Ret", 20)), _s([G], ("Ret", 21))],
+        [_c(2, [1, 2]), "OGo", _c(2, [1], [(2, 2)]), _c(2, [1, 2, 5], gen=2), "OGo", _f(0), _c(2, [1, 2]), _c(2, [1, 2], gen=2), "OGo"]),
 ]
 
 
@@ -215,17 +241,18 @@ def _py(t):
     return None if t == "ANone" else t["AInt"][0]
 
 
-def _refkey(thread, fn, inst, pos, kw):
+def _refkey(thread, fn, gen, inst, pos, kw, named=False):
+    """reference key of a call; named=True: the function object replaced by its name (no generation)"""
     args = [_py(p) for p in pos]
     if fn == 4:
-        args = ["inst%d" % (inst % 2)] + args
+        args = ["inst%d.%d" % (gen % NGEN, inst % 2)] + args
     kwargs = {NAMES[k[""][0]]: _py(k[""][1]) for k in kw}
     try:
         b = _SIGS[fn].bind(*args, **kwargs)
     except TypeError:
         return None
     b.apply_defaults()
-    return json.dumps([thread, fn, sorted(b.arguments.items())], sort_keys=True, default=str)
+    return json.dumps([thread, fn, None if named else gen % NGEN, sorted(b.arguments.items())], sort_keys=True, default=str)
 
 
 def nontrivial(c):
@@ -263,7 +290,8 @@ def compare(c, m, io):
 
 def distribution(cases):
     d = {"ops": {}, "oplen": {}, "hot_fn": {}, "scripts_with_gates": 0, "inner_calls": 0, "inner_dirty": 0, "malformed_calls": 0,
-         "other_thread_calls": 0, "calls": 0}
+         "other_thread_calls": 0, "calls": 0, "generations_in_use": {}, "calls_by_generation": {},
+         "cases_with_same_named_functions_called_with_equal_arguments": 0}
     for c in cases:
         scripts, ops = c["args"]
         L = len(ops)
@@ -271,11 +299,23 @@ def distribution(cases):
         d["oplen"][b] = d["oplen"].get(b, 0) + 1
         h = str(c.get("meta", {}).get("hot_fn"))
         d["hot_fn"][h] = d["hot_fn"].get(h, 0) + 1
+        g = str(len(c.get("meta", {}).get("gens", [0])))
+        d["generations_in_use"][g] = d["generations_in_use"].get(g, 0) + 1
+        named = {}
+        for a in [o["OCall"] for o in ops if isinstance(o, dict) and "OCall" in o] + [
+                [0] + x["BCall"] for s_ in scripts for x in s_[""][0] if isinstance(x, dict) and "BCall" in x]:
+            nk = _refkey(*a, named=True)
+            if nk is not None:
+                named.setdefault(nk, set()).add(a[2])
+        if any(len(v) > 1 for v in named.values()):
+            d["cases_with_same_named_functions_called_with_equal_arguments"] += 1
         for o in ops:
             nm = o if isinstance(o, str) else next(iter(o))
             d["ops"][nm] = d["ops"].get(nm, 0) + 1
             if nm == "OCall":
                 d["calls"] += 1
+                gg = str(o["OCall"][2])
+                d["calls_by_generation"][gg] = d["calls_by_generation"].get(gg, 0) + 1
                 if o["OCall"][0] == 1:
                     d["other_thread_calls"] += 1
                 if _refkey(*o["OCall"]) is None:
@@ -292,6 +332,12 @@ def distribution(cases):
 def _K(d):
     if d["bound"] == "None":
         return None
+    return json.dumps([d["thread"], d["fn"], d["gen"], d["bound"]], sort_keys=True)
+
+
+def _NK(d):
+    """the key with the function object replaced by its name: equal for same-named function objects of different generations
+    (a method's binding holds the instance, which belongs to one generation's class)"""
     return json.dumps([d["thread"], d["fn"], d["bound"]], sort_keys=True)
 
 
@@ -312,10 +358,17 @@ def monitors(c, io, build):
     done = {}
     tainted = set()
     bad_dirty = set()
-    star_used = set()   # (thread, fn) of a *rest callable that has been called / dirtied with surplus positionals
+    star_used = set()   # (thread, fn, generation) of a *rest callable that has been called / dirtied with surplus positionals
     task_keys = {}
     callers = {}
     starts = {}
+    name_of = {}        # key -> key with the function object replaced by its name
+    aliased = set()     # keys such that dirty() / a completion happened for a same-named function object with equal arguments
+
+    def alias(k):
+        for k2 in cur:
+            if k2 != k and name_of.get(k2) == name_of.get(k):
+                aliased.add(k2)
     for ev in io["seq"]:
         what = ev[0]
         if what == "call":
@@ -327,11 +380,12 @@ def monitors(c, io, build):
                 fs.append(dict(clause="well-formed-call", site="%s:TypeError" % d["kind"],
                                msg="well-formed call %d (%s fn %d, %s) raised TypeError" % (d["cid"], d["kind"], d["fn"], _shape(d))))
                 continue
+            name_of[k] = _NK(d)
             task_keys.setdefault(d["tid"], {})[k] = d
             callers[d["cid"]] = d["tid"]
             if d["bound"]["Some"][0][""][1]:
-                star_used.add((d["thread"], d["fn"]))
-            if k in tainted or (d["thread"], d["fn"]) in bad_dirty:
+                star_used.add((d["thread"], d["fn"], d["gen"]))
+            if k in tainted or (d["thread"], d["fn"], d["gen"]) in bad_dirty:
                 continue
             t = cur.get(k)
             if t is not None:
@@ -345,7 +399,12 @@ def monitors(c, io, build):
                 if d["tid"] != t:
                     if stale.get(k):
                         site = "new-task-while-in-flight:older-task-of-key-completed-after-dirty"
-                    elif (d["thread"], d["fn"]) in star_used:
+                    elif (not d["new"] and d["tid"] in creator and creator[d["tid"]]["gen"] != d["gen"]
+                          and _NK(creator[d["tid"]]) == _NK(d)):
+                        site = "other-task-while-in-flight:%s:task-of-same-named-function" % d["kind"]
+                    elif k in aliased:
+                        site = "%s-while-in-flight:%s:same-named-function-dirtied-or-completed" % ("new-task" if d["new"] else "other-task", d["kind"])
+                    elif (d["thread"], d["fn"], d["gen"]) in star_used:
                         site = "not-shared-while-in-flight:callable-used-with-surplus-positional-arguments"
                     else:
                         site = "%s-while-in-flight:%s:%s-spelling" % ("new-task" if d["new"] else "other-task", d["kind"],
@@ -370,17 +429,20 @@ def monitors(c, io, build):
                     creator[d["tid"]] = d
                     made_for.setdefault(k, []).append(d["tid"])
                     stale[k] = False
+                    aliased.discard(k)
         elif what == "dirty":
             d = ev[1]
             k = _K(d)
             if k is None:
                 if d["ok"] == "true":         # an ill-formed dirty() that did not raise: which entry it removed is
-                    bad_dirty.add((d["thread"], d["fn"]))   # outside the statement; no further claim for this callable
+                    bad_dirty.add((d["thread"], d["fn"], d["gen"]))   # outside the statement; no further claim for this callable
                 continue
             if d["ok"] != "true":
                 fs.append(dict(clause="well-formed-call", site="dirty:TypeError", msg="well-formed dirty() raised TypeError"))
             if d["bound"]["Some"][0][""][1]:
-                star_used.add((d["thread"], d["fn"]))
+                star_used.add((d["thread"], d["fn"], d["gen"]))
+            name_of[k] = _NK(d)
+            alias(k)
             cur.pop(k, None)
         elif what == "start":
             starts[ev[2]] = starts.get(ev[2], 0) + 1
@@ -388,6 +450,7 @@ def monitors(c, io, build):
             tid = ev[2]
             done[tid] = ev[3]
             for k in [k for k, t in cur.items() if t == tid]:
+                alias(k)
                 del cur[k]
             for k, ts in made_for.items():
                 if tid in ts and cur.get(k) not in (None, tid):
@@ -397,7 +460,8 @@ def monitors(c, io, build):
         if len(ks) > 1:
             ds = list(ks.values())
             a, b = ds[0], ds[1]
-            what = ("function" if a["fn"] != b["fn"] else "thread" if a["thread"] != b["thread"] else
+            what = ("function" if a["fn"] != b["fn"] else
+                    "function-object-same-name" if a["gen"] != b["gen"] else "thread" if a["thread"] != b["thread"] else
                     "instance" if a["kind"] == "method" and a["bound"]["Some"][0][""][0][0] != b["bound"]["Some"][0][""][0][0] else
                     "arguments")
             ra, rb = a["bound"]["Some"][0][""][1], b["bound"]["Some"][0][""][1]
@@ -453,6 +517,8 @@ def shrink(c):
     for i, o in enumerate(ops):
         if isinstance(o, dict) and ("OCall" in o or "ODirty" in o):
             nm = next(iter(o))
-            th, fn, inst, pos, kw = o[nm]
+            th, fn, gen, inst, pos, kw = o[nm]
             if th != 0:
-                yield mk(scripts, ops[:i] + [{nm: [0, fn, inst, pos, kw]}] + ops[i + 1:])
+                yield mk(scripts, ops[:i] + [{nm: [0, fn, gen, inst, pos, kw]}] + ops[i + 1:])
+            if gen != 0:
+                yield mk(scripts, ops[:i] + [{nm: [th, fn, 0, inst, pos, kw]}] + ops[i + 1:])
